@@ -113,6 +113,7 @@ def run_shard(shard, ctx):
             # unrelated entries that begin like a bus name
             for devs in ([], [[bus, 0, 0, None, "a.vmdk"]], [[bus, 0, 1, "disk", "a.vmdk"], ["ide", 1, 0, "cdrom-image", "cd.iso"]]):
                 run_case({"kind": "vmx", "devs": devs, "casing": casing, "extras": 4}, ctx)
+                run_case({"kind": "vmx", "devs": devs, "casing": casing, "extras": 5}, ctx)
     elif kind == "vmx-chars":
         # every character that some line-splitting or whitespace-trimming routine treats specially, at every position of a
         # disk file name and of a second, non-disk value; the only line separator of the format is LF
@@ -189,6 +190,9 @@ EXTRA_BLOCKS = [
     # unrelated entries whose names merely begin like a bus name (no device, no property)
     ['ideas = "none"', 'scsiEmulation = "TRUE"', 'sataMode = "ahci"', 'nvmeOverFabric = "FALSE"', 'scsi = "yes"', 'IDE = "x"',
      'nvme0 = "present"', 'sata0:1 = "y"'],
+    # ... and have a property part: the name of a device is <bus><number>[:<unit>]
+    ['ideal.fileName = "not-a-disk.bin"', 'scsiController.fileName = "ctl.rom"', 'nvmexpress.fileName = "x.img"',
+     'satanic.deviceType = "disk"', 'satanic.fileName = "y.vmdk"', 'ide.fileName = "no-number.vmdk"'],
 ]
 
 
